@@ -556,6 +556,42 @@ func genNP(r *rng, idx int, tags map[string]bool) *networkingv1.NetworkPolicy {
 	return np
 }
 
+// malform turns the policy into an object the Kubernetes API would reject (the oracle is not consulted for
+// those, Spec.k8s_np_valid; the model must still agree with what the code does with them)
+func malform(r *rng, np *networkingv1.NetworkPolicy) {
+	if len(np.Spec.Ingress) == 0 {
+		np.Spec.Ingress = append(np.Spec.Ingress, networkingv1.NetworkPolicyIngressRule{})
+	}
+	rule := &np.Spec.Ingress[r.intn(len(np.Spec.Ingress))]
+	tcp := kapiv1.ProtocolTCP
+	i32 := func(v int32) *int32 { return &v }
+	ios := func(v intstr.IntOrString) *intstr.IntOrString { return &v }
+	switch r.intn(9) {
+	case 0:
+		rule.Ports = append(rule.Ports, networkingv1.NetworkPolicyPort{Protocol: &tcp, Port: ios(intstr.FromString("http")), EndPort: i32(90)})
+	case 1:
+		rule.Ports = append(rule.Ports, networkingv1.NetworkPolicyPort{Port: ios(intstr.FromInt(90)), EndPort: i32(80)})
+	case 2:
+		rule.Ports = append(rule.Ports, networkingv1.NetworkPolicyPort{Port: ios(intstr.FromInt(70000))})
+	case 3:
+		rule.Ports = append(rule.Ports, networkingv1.NetworkPolicyPort{Port: ios(intstr.FromInt(0))})
+	case 4:
+		rule.Ports = append(rule.Ports, networkingv1.NetworkPolicyPort{Protocol: &tcp, EndPort: i32(90)})
+	case 5:
+		np.Spec.PodSelector.MatchExpressions = append(np.Spec.PodSelector.MatchExpressions,
+			metav1.LabelSelectorRequirement{Key: "role", Operator: pick(r, []metav1.LabelSelectorOperator{metav1.LabelSelectorOpIn, metav1.LabelSelectorOpNotIn})})
+	case 6:
+		np.Spec.PodSelector.MatchExpressions = append(np.Spec.PodSelector.MatchExpressions,
+			metav1.LabelSelectorRequirement{Key: "role", Operator: pick(r, []metav1.LabelSelectorOperator{metav1.LabelSelectorOpExists, metav1.LabelSelectorOpDoesNotExist}), Values: []string{"x"}})
+	case 7:
+		rule.From = append(rule.From, networkingv1.NetworkPolicyPeer{})
+	default:
+		rule.From = append(rule.From, networkingv1.NetworkPolicyPeer{IPBlock: &networkingv1.IPBlock{CIDR: "10.0.1.0/24"},
+			PodSelector: &metav1.LabelSelector{MatchLabels: map[string]string{"app": "web"}}})
+	}
+}
+
+var malformed = flag.Bool("malformed", true, "also generate objects the Kubernetes API validation would reject")
 var absentEgress = flag.Bool("absent-egress", true, "also generate policies without policyTypes that have egress rules")
 var reserved = flag.Bool("reserved", true, "also generate cases using Calico-reserved label keys as ordinary labels")
 var witnesses = flag.Bool("witnesses", true, "emit the scripted witnesses of the Coq refutations first")
@@ -837,6 +873,10 @@ func main() {
 		for j := 0; j < nnp; j++ {
 			w.nps = append(w.nps, genNP(r, j, tags))
 		}
+		if *malformed && r.chance(6) {
+			malform(r, w.nps[r.intn(len(w.nps))])
+			tags["malformed"] = true
+		}
 		if *reserved && r.chance(3) {
 			// a Calico-reserved key used as an ordinary Kubernetes label (dedicated cases, see known-findings.txt)
 			k := pick(r, []string{"pcns.tier", "pcsa.role", "projectcalico.org/namespace", "projectcalico.org/orchestrator"})
@@ -852,11 +892,36 @@ func main() {
 			}
 			return -1, net.ParseIP(pick(r, extIPs))
 		}
+		// ports the policies mention, to aim connections at them and at their neighbours (merged ranges, gaps)
+		var mentioned []int
+		for _, np := range w.nps {
+			var all []networkingv1.NetworkPolicyPort
+			for _, x := range np.Spec.Ingress {
+				all = append(all, x.Ports...)
+			}
+			for _, x := range np.Spec.Egress {
+				all = append(all, x.Ports...)
+			}
+			for _, pp := range all {
+				if pp.Port != nil && pp.Port.Type == intstr.Int {
+					mentioned = append(mentioned, int(pp.Port.IntVal))
+					if pp.EndPort != nil {
+						mentioned = append(mentioned, int(*pp.EndPort))
+					}
+				}
+			}
+		}
 		for j := 0; j < 16; j++ {
 			proto := pick(r, []int{6, 6, 6, 17, 17, 132, 1})
 			port := pick(r, portNums)
 			if r.chance(30) {
 				port = pick(r, portNums) + r.intn(4)
+			}
+			if len(mentioned) > 0 && r.chance(55) {
+				port = pick(r, mentioned) + pick(r, []int{-1, 0, 0, 1, 1, 2})
+			}
+			if port < 0 {
+				port = 0
 			}
 			if port > 65535 {
 				port = 65535
